@@ -22,7 +22,7 @@ from harness.common import exc_name, jdump
 PID = "C09"
 TITLE = "Accumulators yield the documented aggregate and reset() equals a fresh element"
 LEAN_MODULES = ["LenaModel.Props.C09"]
-LEAN_SOURCES = ["LenaModel/Model/C09.lean", "LenaModel/Props/C09.lean"]
+LEAN_SOURCES = ["LenaModel/Model/C09.lean", "LenaModel/Model/C09Spec.lean", "LenaModel/Props/C09.lean"]
 DRIVER = "drivers/C09.lean"
 THEOREMS = [
     # generic: histories
@@ -47,16 +47,33 @@ THEOREMS = [
     # Histogram
     "Lena.C09.binIndex_spec", "Lena.C09.hist_compute_spec", "Lena.C09.hist_conservation",
     "Lena.C09.hist_reset_is_init", "Lena.C09.hist_reset_fresh",
+    # extension round: construct, Vectorize by simulation (DSum / Mean(DSum()) inside), Mean around any sum sequence,
+    # GroupBy key errors and C15's real key function, Count.run, n-dimensional Histogram on C06's model
+    "Lena.C09.Machine.mapOut_run", "Lena.C09.mapOut_reset_fresh", "Lena.C09.vecC_compute", "Lena.C09.Vec.build_arity",
+    "Lena.C09.vecC_reset_fresh",
+    "Lena.C09.vec_reset_fresh_sim", "Lena.C09.dsum_innerSim", "Lena.C09.meand_innerSim",
+    "Lena.C09.vec_meand_reset_fresh", "Lena.C09.vec_dsum_reset_fresh",
+    "Lena.C09.meanOver_compute_spec", "Lena.C09.meanOver_compute_empty", "Lena.C09.mean_sum_start_spec",
+    "Lena.C09.mean_count_spec", "Lena.C09.mean_multi_spec", "Lena.C09.meanOver_reset_fresh",
+    "Lena.C09.mean_sum_start_reset_fresh",
+    "Lena.C09.groupByOpt_fillAll", "Lena.C09.groupByOpt_fill_none", "Lena.C09.groupByOpt_reset_fresh",
+    "Lena.C09.c15_groupsAdd_eq", "Lena.C09.groupby_c15_compute_spec",
+    "Lena.C09.count_run_spec", "Lena.C09.count_run_empty", "Lena.C09.count_run_then_compute",
+    "Lena.C09.bisect_ok", "Lena.C09.binIndex_eq_bin1d", "Lena.C09.histnd_reset_is_init", "Lena.C09.histnd_reset_fresh",
+    "Lena.C09.histnd_fillAll_C06", "Lena.C09.histnd_compute_spec",
     # Graph
     "Lena.C09.graph_compute_spec", "Lena.C09.graph_points", "Lena.C09.graph_reset_is_init",
     "Lena.C09.graph_reset_fresh", "Lena.C09.graph_pinned_reset_not_fresh",
 ]
 TRUSTED = [
     "Lean 4.33.0 kernel; axioms limited to propext, Classical.choice, Quot.sound (audited by #print axioms on every run)",
-    "hand transcription of Count, Sum, DSum, Mean, VarianceMeanCount, Vectorize, StoreFilled, GroupBy, Histogram "
-    "(one-dimensional histogram.__init__/fill) and Graph (fill/compute/reset/_update) into LenaModel/Model/C09.lean, "
-    "validated by this correspondence check (all histories up to 4 calls over small value sets, seeded random histories "
-    "up to 12 calls)",
+    "hand transcription of Count (fill, compute, reset, run), Sum, DSum, Mean (sum_seq None / Sum() / DSum() / any FillCompute "
+    "sum sequence), VarianceMeanCount, Vectorize (bare elements or FillComputeSeq components, construct), StoreFilled, "
+    "GroupBy, Histogram (own one-dimensional model, and any dimension on the shared model LenaModel/Model/C06.lean) and "
+    "Graph (fill/compute/reset/_update) into LenaModel/Model/C09.lean, validated by this correspondence check (all histories "
+    "up to 4 calls over small value sets, seeded random histories up to 12 calls)",
+    "LenaModel/Model/C06.lean (histogram.__init__/fill, owned by property C06) and LenaModel/Model/C15.lean (GroupBy with the "
+    "real key function, owned by C15), whose own checks validate them; C09 re-validates the histogram part on its cases",
     "decimal.Context.add under traps=[Inexact] as transcribed: exact sum if it has at most prec significant digits, "
     "else Inexact (validated through the final value and the final precision of every DSum history)",
     "JSON line protocol encoders (harness/props/c09.py, drivers/C09.lean), including the exact scaling of floats to integers",
@@ -66,21 +83,31 @@ ASSUMPTIONS = [
     "the quotients of Mean and VarianceMeanCount are exact rationals in the model, the implementation's floats are "
     "compared with the correctly rounded evaluation of the same expression (rounding itself is not modelled)",
     "contexts are flat dictionaries whose leaves are opaque to the accumulators (nested dictionaries are opaque leaves)",
-    "GroupBy's key function (IncludeExcludeTree.get + to_string) is property C15's subject; here a value comes with the "
-    "key computed by an independent reference for top-level group_by/merge keys",
-    "Histogram's bin search is property C06's subject; the model uses its specification (number of edges <= x, minus one) "
-    "for one-dimensional histograms; two-dimensional histograms are checked by the direct oracle only",
+    "GroupBy's key function (IncludeExcludeTree.get + to_string) is property C15's subject; in the C09 correspondence a value "
+    "comes with the key computed by an independent reference for top-level group_by/merge keys (None when the key cannot "
+    "be rendered); theorem groupby_c15_compute_spec links the abstract model to C15's transcription with the real key function",
+    "the interpolation guess of Histogram's bin search is a parameter of the shared model whose value does not influence the "
+    "result (C06: bin1d_guess_independent); the C09 driver uses bisection",
     "Decimal(float) is the exact decimal expansion of the float (Dec.ofDy); Emax/Emin of the decimal context are not reached",
+    "adapters (FillRequest, FillRequestSeq, FillCompute) around an accumulator are transparent while the block size is not "
+    "reached: fill/reset through them are the element's own (validated on the cases with 'via')",
 ]
-RULE = ("per element configuration (47 of them: Count, Sum, DSum, Mean[None|Sum()|DSum()], VarianceMeanCount, Vectorize[Sum|"
-        "Count|Mean|VarianceMeanCount|StoreFilled, bare or wrapped in FillComputeSeq(lambda x: k*x, .), dim 1..3, list form, short and long data vectors], StoreFilled, GroupBy["
-        "default|group_by|merge], Histogram[1-d, initial bins, make_bins, initial_value; 2-d by the oracle only], Graph[scale, "
-        "sort]): EVERY history of up to 4 calls (thorough: up to 5 for the single-accumulator families) over {fill(v1), "
-        "fill(v2), compute, reset}; construction argument checks of Histogram and Vectorize; a regression corpus; plus seeded "
-        "random histories fill* (compute|reset|fill)* of up to 12 calls (quick 8 000, thorough 300 000) with ints (up to "
-        "1e30 for Sum), exactly summable floats of mixed magnitude (multiples of 2**-k, k up to 20), (data, context) pairs "
-        "with flat and nested contexts; DSum and Mean(DSum()) with arbitrary floats (denormals to 1e308, cancelling pairs, "
-        "huge ints).  Non-trivial: a construction error, or at least two fills and a compute that yields something.")
+RULE = ("per element configuration (61 of them: Count, Sum, DSum, Mean[None|Sum()|DSum()|Sum(start)|Count()|StoreFilled(False)|"
+        "FillCompute(Sum()) without reset], VarianceMeanCount[default or explicit sums], Vectorize[Sum|Count|Mean|Mean(DSum())|DSum|"
+        "VarianceMeanCount|StoreFilled, bare or wrapped in FillComputeSeq(lambda x: k*x, .), dim 1..3, list form, short and long "
+        "data vectors, construct None|variadic|namedtuple of right and wrong size], StoreFilled, GroupBy[default|group_by|merge, "
+        "keys that cannot be rendered], Histogram[1-d, 2-d, 3-d, nested single axis, initial bins, make_bins, initial_value, "
+        "coordinates of the wrong dimension], Graph[scale, sort, tuple coordinates of equal and different dimensions], elements "
+        "filled and reset through FillRequest / FillRequestSeq / FillCompute adapters): EVERY history of up to 4 calls (thorough: "
+        "up to 5 for the single-accumulator families) over {fill(v1), fill(v2), compute, reset}; Count with every history of up to "
+        "3 (thorough 4) calls over {run(2 values), run(()), run(1 value), fill, compute, reset}; construction argument checks of "
+        "Histogram, Vectorize, GroupBy; a regression corpus; plus seeded random histories fill* (compute|reset|fill)* of up to 12 "
+        "calls (quick 6 000, thorough 250 000) with ints (up to 1e30 for Sum), exactly summable floats of mixed magnitude "
+        "(multiples of 2**-k, k up to 20), (data, context) pairs with flat and nested contexts; DSum, Mean(DSum()) and their "
+        "Vectorize with arbitrary floats (denormals to 1e308, cancelling pairs, huge ints).  Every case also sends the "
+        "specification vocabulary of the theorems (Model/C09Spec.lean) to the driver and compares it with Python references.  "
+        "After every reset the rest of the history is replayed on a new element and `element == new element` is evaluated.  "
+        "Non-trivial: a construction error, or at least two fills and a compute that yields something.")
 CASE_TIMEOUT = 10
 
 
@@ -107,17 +134,26 @@ def _data(spec, d):
     if k == "vec":
         return [_num(x) for x in d]
     if k == "graph":
-        return (_num(d[0]), _num(d[1]))
+        c0 = tuple(_num(x) for x in d[0]) if isinstance(d[0], list) else _num(d[0])
+        return (c0, _num(d[1]))
     if k == "hist" and isinstance(d, list):
         return [_num(x) for x in d]
     return _num(d)
+
+
+def _dec_leaf(x):
+    """a context leaf of a case: {"__set__": [...]} stands for a Python set (not JSON-serialisable: GroupBy cannot
+    render it), everything else for itself"""
+    if isinstance(x, dict) and "__set__" in x:
+        return set(x["__set__"])
+    return copy.deepcopy(x)
 
 
 def _value(spec, v):
     d = _data(spec, v["d"])
     if v.get("c") is None:
         return d
-    return (d, copy.deepcopy(v["c"]))
+    return (d, {k: _dec_leaf(x) for k, x in v["c"].items()})
 
 
 def _ctx_of(v):
@@ -139,10 +175,27 @@ def _build(spec, zero=False):
         return lena.math.Sum(0 if zero else _num(spec["total0"]))
     if k == "dsum":
         return lena.math.DSum(0 if zero else _num(spec["total0"]))
+    if k == "countrun":
+        return lena.flow.Count(spec["name"], 0 if zero else spec["count0"])
     if k == "mean":
-        seq = {None: None, "sum": lena.math.Sum, "dsum": lena.math.DSum}[spec["seq"]]
-        return lena.math.Mean(seq() if seq else None, pass_on_empty=spec["poe"])
+        import lena.core
+        sq = spec["seq"]
+        if sq == "sumt":          # a sum sequence with a non-zero start (its reset goes to the documented zero)
+            seq = lena.math.Sum(0 if zero else _num(spec["t0"]))
+        elif sq == "count":       # its first value carries a context
+            seq = lena.flow.Count()
+        elif sq == "store":       # a sum sequence that yields several values
+            seq = lena.flow.StoreFilled(False)
+        elif sq == "fcsum":       # a sum sequence without reset
+            seq = lena.core.FillCompute(lena.math.Sum())
+        else:
+            cls = {None: None, "sum": lena.math.Sum, "dsum": lena.math.DSum}[sq]
+            seq = cls() if cls else None
+        return lena.math.Mean(seq, pass_on_empty=spec["poe"])
     if k == "vmc":
+        if spec.get("explicit"):
+            return lena.math.VarianceMeanCount(lena.math.Sum(), lena.math.Sum(), corrected=spec["corrected"],
+                                               pass_on_empty=spec["poe"])
         return lena.math.VarianceMeanCount(corrected=spec["corrected"], pass_on_empty=spec["poe"])
     if k == "store":
         return lena.flow.StoreFilled(spec["group"])
@@ -159,11 +212,18 @@ def _build(spec, zero=False):
             if mul == 1:
                 return lena.core.FillComputeSeq(el)
             return lena.core.FillComputeSeq(lambda x: mul * x, el)
+        kw = {}
+        con = spec.get("construct")     # None | "variadic" | k (a namedtuple with k fields)
+        if con == "variadic":
+            kw["construct"] = lambda *a: ["made"] + list(a)
+        elif con is not None:
+            import collections
+            kw["construct"] = collections.namedtuple("made", ["f%d" % i for i in range(con)])
         if spec["list"]:
             seqs = [comp() for _ in range(spec["nseq"])]
-            return lena.math.Vectorize(seqs) if spec["dim"] is None else lena.math.Vectorize(seqs, spec["dim"])
+            return lena.math.Vectorize(seqs, **kw) if spec["dim"] is None else lena.math.Vectorize(seqs, spec["dim"], **kw)
         inner = comp()
-        return lena.math.Vectorize(inner) if spec["dim"] is None else lena.math.Vectorize(inner, spec["dim"])
+        return lena.math.Vectorize(inner, **kw) if spec["dim"] is None else lena.math.Vectorize(inner, spec["dim"], **kw)
     if k == "hist":
         edges = [[_num(x) for x in ax] for ax in spec["edges"]] if spec.get("md") else [_num(x) for x in spec["edges"]]
         kw = {}
@@ -206,6 +266,8 @@ def _enc(o):
         return {"t": [_enc(x) for x in o]}
     if isinstance(o, list):
         return {"l": [_enc(x) for x in o]}
+    if isinstance(o, (set, frozenset)):
+        return {"set": sorted(_enc(x) for x in o)}
     if isinstance(o, lena.structures.histogram):
         return {"hist": {"edges": _enc(o.edges), "bins": _enc(o.bins), "n_out": _enc(o.n_out_of_range)}}
     if isinstance(o, lena.structures.Graph):
@@ -213,29 +275,57 @@ def _enc(o):
     return {"obj": type(o).__name__}
 
 
-def _run_ops(el, spec, ops):
+def _adapter(el, via):
+    """the object through which the history fills and resets the element (`compute` is always the element's own,
+    or the FillCompute adapter's)"""
+    import lena.core
+    if via == "fr":          # FillRequest.reset() = el.reset(); the block size is never reached
+        return lena.core.FillRequest(el, bufsize=10 ** 6, reset=False, buffer_input=True)
+    if via == "frseq":       # FillRequestSeq.reset() -> FillRequest.reset() -> el.reset()
+        return lena.core.FillRequestSeq(lena.core.FillRequest(el, bufsize=10 ** 6, reset=False, buffer_input=True),
+                                        bufsize=10 ** 6, reset=False, buffer_input=True)
+    if via == "fc":          # the FillCompute adapter (fill and compute through it; it has no reset)
+        return lena.core.FillCompute(el)
+    return el
+
+
+def _run_ops(el, spec, ops, eqs=None, base=0):
     obs = []
-    for op in ops:
-        if op[0] == "f":
+    drv = _adapter(el, spec.get("via"))
+    cmp_el = drv if spec.get("via") == "fc" else el
+    rst_el = el if spec.get("via") == "fc" else drv
+    for i, op in enumerate(ops):
+        if op[0] == "run":
             try:
-                el.fill(_value(spec, op[1]))
+                obs.append({"run": [_enc(y) for y in el.run(iter([_value(spec, v) for v in op[1]]))]})
+            except Exception as e:
+                obs.append({"rune": exc_name(e)})
+        elif op[0] == "f":
+            try:
+                drv.fill(_value(spec, op[1]))
                 obs.append({"f": None})
             except Exception as e:
                 obs.append({"f": exc_name(e)})
         elif op[0] == "c":
             try:
                 out = []
-                for y in el.compute():
+                for y in cmp_el.compute():
                     out.append(_enc(y))       # encoded at yield time: histograms, graphs and groups are live objects
                 obs.append({"c": out})
             except Exception as e:
                 obs.append({"ce": exc_name(e)})
         else:
             try:
-                el.reset()
+                rst_el.reset()
                 obs.append("r")
             except Exception as e:
                 obs.append({"re": exc_name(e)})
+                continue
+            if eqs is not None and type(el).__eq__ is not object.__eq__:
+                try:                    # `==` is an observation too: a reset element equals a new one
+                    eqs[str(base + i)] = bool(el == _build(spec, zero=True))
+                except Exception as e:
+                    eqs[str(base + i)] = exc_name(e)
     return obs
 
 
@@ -247,12 +337,13 @@ def run_impl(case):
         el = _build(spec)
     except Exception as e:
         return {"init_err": exc_name(e)}
-    res = {"obs": _run_ops(el, spec, ops), "fresh": {}}
+    eqs = {}
+    res = {"obs": _run_ops(el, spec, ops, eqs), "fresh": {}, "eq": eqs}
     if spec["k"] == "dsum":
         res["prec"] = el._dcontext.prec
     # reset-equals-fresh: after every reset, the rest of the history on a newly constructed element
     for i, op in enumerate(ops):
-        if op[0] == "r" and i + 1 < len(ops):
+        if op[0] == "r" and i + 1 < len(ops) and res["obs"][i] == "r":
             res["fresh"][str(i)] = _run_ops(_build(spec, zero=True), spec, ops[i + 1:])
     return res
 
@@ -282,7 +373,7 @@ def _leaf_table(case):
         if op[0] == "f" and op[1].get("c"):
             for v in op[1]["c"].values():
                 if not (isinstance(v, int) and not isinstance(v, bool)) and v is not None:
-                    tab.setdefault(jdump(_enc(v)), 10 ** 9 + len(tab))
+                    tab.setdefault(jdump(_enc(_dec_leaf(v))), 10 ** 9 + len(tab))
     return tab
 
 
@@ -294,7 +385,7 @@ def _m_ctx(c, tab):
         if v is None or (isinstance(v, int) and not isinstance(v, bool)):
             out[k] = v
         else:
-            out[k] = tab[jdump(_enc(v))]
+            out[k] = tab[jdump(_enc(_dec_leaf(v)))]
     return out
 
 
@@ -319,13 +410,17 @@ def _ref_key(spec, ctx):
     args = spec["args"]
     gb = args[0] if len(args) > 0 else ""
     mg = args[1] if len(args) > 1 else ""
-    if gb == "" and mg == "":
-        return "all"
     gbs = [gb] if isinstance(gb, str) else list(gb)
     mgs = [mg] if isinstance(mg, str) else list(mg)
-    if "" in gbs:      # the whole context except the merged keys
-        return jdump({k: _enc(v) for k, v in ctx.items() if k not in mgs})
-    return jdump({k: _enc(v) for k, v in ctx.items() if k in gbs})
+    if gb == "" and mg == "":
+        sel = {}
+    elif "" in gbs:      # the whole context except the merged keys
+        sel = {k: v for k, v in ctx.items() if k not in mgs}
+    else:
+        sel = {k: v for k, v in ctx.items() if k in gbs}
+    if any(isinstance(v, dict) and "__set__" in v for v in sel.values()):
+        return None        # to_string (json) cannot render the key: GroupBy.fill raises LenaValueError
+    return jdump({k: _enc(v) for k, v in sel.items()})
 
 
 def _m_spec(spec):
@@ -334,19 +429,35 @@ def _m_spec(spec):
         return {"k": "count", "name": spec["name"], "count0": spec["count0"]}
     if k == "mean":
         return {"k": "mean", "seq": spec["seq"] == "sum", "poe": spec["poe"]}
+    if k == "store":
+        return {"k": "store", "group": spec["group"]}
+    if k == "vmc":
+        return {"k": "vmc", "corrected": spec["corrected"], "poe": spec["poe"]}
     if k in ("vmc", "store"):
         return dict(spec)
     return None
 
 
-def model_requests(case):
+def _main_requests(case):
     spec, sh = case["el"], case.get("sh", 0)
     k = spec["k"]
     tab = _leaf_table(case)
-    if k == "hist" and spec.get("md"):
-        return []
+    if k == "groupby" and any(not isinstance(a, (str, list)) for a in spec["args"]):
+        return []                      # construction argument check: judged by the oracle
+    if k == "graph" and any(op[0] == "f" and isinstance(op[1]["d"][0], list) for op in case["ops"]):
+        return []                      # tuple coordinates: judged by the oracle
     if k == "count":
         el = _m_spec(spec)
+    elif k == "countrun":
+        el = {"k": "countrun", "name": spec["name"], "count0": spec["count0"]}
+    elif k == "mean" and spec["seq"] in ("sumt", "count", "store", "fcsum"):
+        if spec["seq"] == "fcsum" and any(op[0] == "r" for op in case["ops"]):
+            return []                  # reset() raises LenaAttributeError: judged by the oracle
+        inner = {"sumt": {"k": "sum", "total0": _scaled(spec.get("t0", 0), sh)},
+                 "fcsum": {"k": "sum", "total0": 0},
+                 "count": {"k": "count", "name": "count", "count0": 0},
+                 "store": {"k": "storeitems"}}[spec["seq"]]
+        el = {"k": "meanover", "inner": inner, "poe": spec["poe"]}
     elif k == "sum":
         el = {"k": "sum", "total0": _scaled(spec["total0"], sh)}
     elif k == "dsum":
@@ -357,20 +468,36 @@ def model_requests(case):
         el = {"k": "meand", "poe": spec["poe"]}
     elif k in ("mean", "vmc", "store"):
         el = _m_spec(spec)
+        el.pop("explicit", None)
+        el.pop("via", None)
     elif k == "groupby":
         el = {"k": "groupby"}
     elif k == "vec":
         inner = spec["inner"]
-        mi = {"k": "sum", "total0": _scaled(inner["total0"], sh)} if inner["k"] == "sum" else _m_spec(inner)
-        if mi is None or (inner["k"] == "mean" and inner["seq"] == "dsum"):
+        if inner["k"] == "mean" and inner["seq"] == "dsum":
+            mi = {"k": "meand", "poe": inner["poe"]}
+        elif inner["k"] == "dsum":
+            mi = {"k": "dsum"}
+        else:
+            mi = {"k": "sum", "total0": _scaled(inner["total0"], sh)} if inner["k"] == "sum" else _m_spec(inner)
+        if mi is None or (mi["k"] in ("meand", "dsum") and spec.get("wrap")):
             return []
         el = {"k": "vec", "inner": mi, "list": spec["list"], "nseq": spec.get("nseq", 1), "dim": spec["dim"],
-              "mul": spec.get("wrap")}
+              "mul": spec.get("wrap"), "construct": spec.get("construct")}
         if spec["dim"] is not None and spec["dim"] < 0:
             return []
     elif k == "hist":
-        el = {"k": "hist", "edges": [_scaled(x, sh) for x in spec["edges"]], "bins": spec.get("bins"),
-              "make_bins": spec.get("make_bins"), "iv": 0 if spec.get("iv") is None else spec["iv"]}
+        if spec.get("md"):
+            el = None
+        else:
+            el = {"k": "hist", "edges": [_scaled(x, sh) for x in spec["edges"]], "bins": spec.get("bins"),
+                  "make_bins": spec.get("make_bins"), "iv": 0 if spec.get("iv") is None else spec["iv"]}
+        # the same element on the shared n-dimensional histogram model (LenaModel/Model/C06.lean)
+        el_nd = {"k": "histnd",
+                 "edges": ([[_scaled(x, sh) for x in ax] for ax in spec["edges"]] if spec.get("md")
+                           else [_scaled(x, sh) for x in spec["edges"]]),
+                 "bins": spec.get("bins"), "make_bins": spec.get("make_bins"),
+                 "iv": 0 if spec.get("iv") is None else spec["iv"]}
     elif k == "graph":
         el = {"k": "graph", "scale0": spec["scale0"], "sort": spec["sort"], "reset_scale": _graph_reset_restores_scale()}
     else:
@@ -378,23 +505,132 @@ def model_requests(case):
     keys = {}
     ops = []
     for op in case["ops"]:
-        if op[0] == "f":
+        if op[0] == "run":
+            ops.append({"o": "run", "vs": [{"c": _m_ctx(v.get("c"), tab), "d": _scaled(v["d"], sh)} for v in op[1]]})
+        elif op[0] == "f":
             v = op[1]
             mv = {"c": _m_ctx(v.get("c"), tab)}
             if k == "dsum" or (k == "mean" and spec["seq"] == "dsum"):
                 mv["d"] = _dyadic(v["d"])
+            elif k == "vec" and el["inner"]["k"] in ("meand", "dsum"):
+                mv["d"] = [_dyadic(x) for x in v["d"]]
             elif k == "vec":
                 mv["d"] = [_scaled(x, sh) for x in v["d"]]
             elif k == "graph":
                 mv["d"] = [_scaled(v["d"][0], sh), _scaled(v["d"][1], sh)]
+            elif k == "hist" and isinstance(v["d"], list):
+                mv["d"] = [_scaled(x, sh) for x in v["d"]]
             else:
                 mv["d"] = _scaled(v["d"], sh)
             if k == "groupby":
-                mv["k"] = keys.setdefault(_ref_key(spec, _ctx_of(v)), len(keys))
+                rk = _ref_key(spec, _ctx_of(v))
+                mv["k"] = None if rk is None else keys.setdefault(rk, len(keys))
             ops.append({"o": "f", "v": mv})
         else:
             ops.append({"o": op[0]})
+    if k == "hist":
+        return ([{"el": el, "ops": ops}] if el is not None else []) + [{"el": el_nd, "ops": ops}]
     return [{"el": el, "ops": ops}]
+
+
+def _spec_requests(case):
+    """requests that execute the specification vocabulary of the theorems (Model/C09Spec.lean) on the values of the case;
+    _spec_check compares every answer with an independent Python computation"""
+    spec, sh = case["el"], case.get("sh", 0)
+    k = spec["k"]
+    fills = [op[1] for op in case["ops"] if op[0] == "f"][:6]
+    if not fills:
+        return []
+    tab = _leaf_table(case)
+    try:
+        if k in ("sum", "vmc", "store", "count") or (k == "mean" and spec["seq"] != "dsum"):
+            return [{"spec": "stats", "vs": [{"d": _scaled(v["d"], sh), "c": _m_ctx(v.get("c"), tab)} for v in fills]}]
+        if k == "groupby" and all(isinstance(a, (str, list)) for a in spec["args"]):
+            keys = {}
+            ks = []
+            for v in fills:
+                rk = _ref_key(spec, _ctx_of(v))
+                if rk is not None:
+                    ks.append(keys.setdefault(rk, len(keys)))
+            return [{"spec": "keys", "ks": ks, "probe": ks[len(ks) // 2]}] if ks else []
+        if k == "vec" and spec["inner"]["k"] not in ("dsum",) and not (spec["inner"]["k"] == "mean" and spec["inner"]["seq"] == "dsum"):
+            return [{"spec": "vec", "rows": [[_scaled(x, sh) for x in v["d"]] for v in fills], "i": len(fills) % 3}]
+        if k == "hist" and not spec.get("md"):
+            es = [_frac(x) for x in spec["edges"]]
+            if len(es) < 2 or any(a >= b for a, b in zip(es, es[1:])):
+                return []                # the bin index is specified for strictly increasing edges
+            n = len(spec["edges"]) - 1
+            return [{"spec": "bins", "edges": [_scaled(x, sh) for x in spec["edges"]],
+                     "xs": [_scaled(v["d"], sh) for v in fills], "n": n, "j": len(fills) % max(n, 1),
+                     "bins": spec.get("bins"), "make_bins": spec.get("make_bins"),
+                     "iv": 0 if spec.get("iv") is None else spec["iv"]}]
+        if k == "hist" and spec.get("make_bins") is None:
+            return [{"spec": "histel", "edges": [[_scaled(x, sh) for x in ax] for ax in spec["edges"]],
+                     "bins": spec.get("bins"), "iv": 0 if spec.get("iv") is None else spec["iv"],
+                     "vs": [{"d": [_scaled(x, sh) for x in v["d"]], "c": _m_ctx(v.get("c"), tab)} for v in fills]}]
+        if k == "dsum" or (k == "mean" and spec["seq"] == "dsum"):
+            return [{"spec": "dsum", "vs": [_dyadic(v["d"]) for v in fills]}]
+    except ValueError:
+        return []
+    return []
+
+
+def _spec_check(case, req, rep):
+    """independent Python reference for every function of the specification vocabulary"""
+    if "err" in rep:
+        return f"spec request {req['spec']}: {rep['err']}"
+    kind = req["spec"]
+    if kind == "stats":
+        vs = req["vs"]
+        xs = [v["d"] for v in vs]
+        n = len(xs)
+        mu = Fraction(sum(xs), n)
+        dev = sum(((x - mu) ** 2 for x in xs), Fraction(0))
+        want = {"ctxAfter": vs[-1]["c"] or {}, "dataSum": sum(xs), "dataSumSq": sum(x * x for x in xs), "isum": sum(xs),
+                "isumSq": sum(x * x for x in xs), "sqDev": [dev.numerator, dev.denominator], "bareCtx": {},
+                "bareSum": sum(xs)}
+    elif kind == "keys":
+        ks = req["ks"]
+        want = {"firstKeys": list(dict.fromkeys(ks)), "lookup": [i for i, k in enumerate(ks) if k == req["probe"]]}
+    elif kind == "vec":
+        rows, i = req["rows"], req["i"]
+        want = {"column": [r[i] if i < len(r) else 0 for r in rows],
+                "zip": [list(t) for t in itertools.zip_longest(*rows)],
+                "firstErr": "LenaZeroDivisionError" if any(not r for r in rows) else rows}
+    elif kind == "bins":
+        es, xs, n, j = req["edges"], req["xs"], req["n"], req["j"]
+        idx = [bisect.bisect_right(es, x) - 1 for x in xs]
+        init = req["make_bins"] if req["make_bins"] is not None else (
+            req["bins"] if req["bins"] is not None else [req["iv"]] * (len(es) - 1))
+        want = {"idx": idx, "in": [i == j for i in idx], "out": [i < 0 or i >= n for i in idx], "initBins": init}
+    elif kind == "dsum":
+        fr = [Fraction(m) * Fraction(2) ** e for m, e in req["vs"]]
+        tot = sum(fr, Fraction(0))
+        pr = lambda f: [f.numerator, f.denominator]
+        want = {"dySum": pr(tot), "bareSum": pr(tot), "dec": [pr(f) for f in fr], "dy": [pr(f) for f in fr]}
+    elif kind == "histel":
+        spec = case["el"]
+        fills = [op[1] for op in case["ops"] if op[0] == "f"][:6]
+        nd = len(spec["edges"])
+        if any(len(v["d"]) != nd for v in fills):
+            want = {"e": "LenaValueError"}
+        else:
+            try:
+                bins, n_out = _ref_hist(spec, fills)
+                want = {"bins": bins, "n_out": n_out, "c": req["vs"][-1]["c"] or {}}
+            except Exception:
+                return None
+        if "e" in rep and "e" not in want:      # construction errors are compared by the main request
+            return None
+    else:
+        return f"unknown spec request {kind}"
+    if rep != want:
+        return f"spec {kind} on {jdump(req)[:300]}: Lean {rep} vs Python reference {want}"
+    return None
+
+
+def model_requests(case):
+    return _main_requests(case) + _spec_requests(case)
 
 
 class _Mismatch(Exception):
@@ -468,6 +704,17 @@ def _vmc_floats(var_q, mean_q, n, corrected, sh):
     return var_f, mean_f
 
 
+def _vec_row(d):
+    """(components, constructed?) of the data part of a value yielded by Vectorize"""
+    if isinstance(d, dict) and "t" in d:
+        return d["t"], False
+    if isinstance(d, dict) and d.get("nt") == "made":
+        return [d["f"]["f%d" % i] for i in range(len(d["f"]))], True
+    if isinstance(d, dict) and "l" in d and d["l"] and d["l"][0] == {"s": "made"}:
+        return d["l"][1:], True
+    raise _Mismatch(f"Vectorize yielded {d}, neither a tuple nor a constructed object")
+
+
 def _conv_out(kind, spec, e, sh, tab, m):
     """translate one encoded output of the implementation into the model's encoding; `m` is the model's output (used
     where the implementation's float is the rounded evaluation of the model's exact rational)"""
@@ -493,9 +740,18 @@ def _conv_out(kind, spec, e, sh, tab, m):
         md = m.get("d") if isinstance(m, dict) else None
         if not (isinstance(md, list) and len(md) == 2):
             raise _Mismatch(f"model output {m} is not a mean")
+        if m.get("__idx", 0) > 0:        # a further value of the sum sequence: passed on as it is
+            if _unnum(d) * (1 << sh) != Fraction(md[0], md[1]):
+                raise _Mismatch(f"value {d} passed on by Mean vs model {md}")
+            r = {"d": md}
+            if c is not None:
+                r["c"] = _impl_ctx(c, tab)
+            return r
         if spec.get("seq") == "dsum":
             n = m.get("__n")           # float(Decimal total) / float(count): two roundings
             ref = float(Fraction(md[0], md[1]) * n) / float(n)
+        elif spec.get("seq") == "count":
+            ref = _rdiv(md[0], md[1])  # a count is not scaled
         else:
             ref = _rdiv(md[0], md[1] << sh)
         if not (isinstance(d, dict) and "fl" in d and float.fromhex(d["fl"]) == ref):
@@ -541,15 +797,19 @@ def _conv_out(kind, spec, e, sh, tab, m):
         return {"g": [_conv_out("item", spec, x, sh, tab, None) for x in e["l"]]}
     if kind == "vec":
         d, c = _split_pair(e)
-        if not (isinstance(d, dict) and "t" in d):
-            raise _Mismatch(f"Vectorize yielded {d}, not a tuple")
+        row, made = _vec_row(d)
         inner = spec["inner"]
         md = m.get("d") if isinstance(m, dict) else None
+        if isinstance(md, dict) and "made" in md:
+            md = md["made"]
+        ns = m.get("__ns") if isinstance(m, dict) else None
         comps = []
-        for i, x in enumerate(d["t"]):
+        for i, x in enumerate(row):
             mi = md[i] if isinstance(md, list) and i < len(md) else None
+            if isinstance(mi, dict) and ns is not None and i < len(ns):
+                mi = dict(mi, __n=ns[i])
             comps.append(None if x is None else _conv_out(inner["k"], inner, x, sh, tab, mi))
-        r = {"d": comps}
+        r = {"d": {"made": comps} if made else comps}
         if c is not None:
             r["c"] = _impl_ctx(c, tab)
         return r
@@ -558,10 +818,15 @@ def _conv_out(kind, spec, e, sh, tab, m):
         if c is None or not (isinstance(d, dict) and "hist" in d):
             raise _Mismatch(f"Histogram yielded {e}, not a (histogram, context) pair")
         h = d["hist"]
-        edges = [_int_scaled(x, sh) for x in h["edges"]["l"]]
-        if edges != [_scaled(x, sh) for x in spec["edges"]]:
+
+        def nested(x, f):
+            return [nested(y, f) for y in x["l"]] if isinstance(x, dict) and "l" in x else f(x)
+        edges = nested(h["edges"], lambda x: _int_scaled(x, sh))
+        want = ([[_scaled(x, sh) for x in ax] for ax in spec["edges"]] if spec.get("md")
+                else [_scaled(x, sh) for x in spec["edges"]])
+        if edges != want:
             raise _Mismatch(f"edges of the yielded histogram {h['edges']} differ from the configuration")
-        return {"d": {"bins": [_int_scaled(x, 0) for x in h["bins"]["l"]], "n_out": _int_scaled(h["n_out"], 0)},
+        return {"d": {"bins": nested(h["bins"], lambda x: _int_scaled(x, 0)), "n_out": _int_scaled(h["n_out"], 0)},
                 "c": _impl_ctx(c, tab)}
     if kind == "graph":
         d, c = _split_pair(e)
@@ -575,6 +840,11 @@ def _conv_out(kind, spec, e, sh, tab, m):
 
 def _norm_model(kind, spec, m):
     """model output -> comparable form (decimals by value)"""
+    if kind == "vec" and spec["inner"]["k"] == "dsum" and isinstance(m, dict):
+        d = m["d"]
+        row = d["made"] if isinstance(d, dict) else d
+        row = [None if x is None else _norm_model("dsum", spec["inner"], x) for x in row]
+        return dict(m, d={"made": row} if isinstance(d, dict) else row)
     if kind == "dsum":
         d = m["d"]
         r = dict(m, d=Fraction(d[0]) * Fraction(10) ** d[1])
@@ -583,11 +853,24 @@ def _norm_model(kind, spec, m):
 
 
 def compare(case, res, replies):
-    m = replies[0]
+    sreqs = _spec_requests(case)
+    nmain = len(replies) - len(sreqs)
+    for m in replies[:nmain]:
+        msg = _compare_one(case, res, m)
+        if msg:
+            return msg
+    for req, rep in zip(sreqs, replies[nmain:]):
+        msg = _spec_check(case, req, rep)
+        if msg:
+            return msg
+    return None
+
+
+def _compare_one(case, res, m):
     if "err" in m:
         return f"model driver error: {m['err']}"
     spec, sh = case["el"], case.get("sh", 0)
-    kind = spec["k"]
+    kind = "count" if spec["k"] == "countrun" else spec["k"]
     if "init_err" in res or "init_err" in m:
         if res.get("init_err") != m.get("init_err"):
             return f"construction: impl {res.get('init_err', 'ok')} vs model {m.get('init_err', 'ok')}"
@@ -601,6 +884,17 @@ def compare(case, res, replies):
         if a == "r" or b == "r":
             if a != b:
                 return f"op {i} {op}: impl {a} vs model {b}"
+            continue
+        if "run" in a or "run" in b or "rune" in a:
+            if "run" not in a or "run" not in b or len(a["run"]) != len(b["run"]):
+                return f"op {i} run: impl {a} vs model {b}"
+            for y, z in zip(a["run"], b["run"]):
+                try:
+                    cy = _conv_out("item", spec, y, sh, tab, None)
+                except _Mismatch as e:
+                    return f"op {i} run: {e}"
+                if cy != z:
+                    return f"op {i} run: impl {cy} vs model {z}"
             continue
         if "f" in a or "f" in b:
             if a.get("f") != b.get("f") or set(a) != set(b):
@@ -618,16 +912,27 @@ def compare(case, res, replies):
         nfill = 0
         for op2 in case["ops"][:i]:
             nfill = nfill + 1 if op2[0] == "f" else (0 if op2[0] == "r" else nfill)
-        for y, z in zip(ys, zs):
+        ns = None
+        if kind == "vec":           # fills seen by every component since the last reset (a short vector fills a prefix)
+            ns = [0] * 8
+            for op2 in case["ops"][:i]:
+                if op2[0] == "r":
+                    ns = [0] * 8
+                elif op2[0] == "f":
+                    for j in range(min(len(op2[1]["d"]), 8)):
+                        ns[j] += 1
+        for yi, (y, z) in enumerate(zip(ys, zs)):
             if kind == "mean" and isinstance(z, dict):
-                z = dict(z, __n=nfill)
+                z = dict(z, __n=nfill, __idx=yi)
+            if kind == "vec" and isinstance(z, dict):
+                z = dict(z, __ns=ns)
             try:
                 cy = _conv_out(kind, spec, y, sh, tab, z)
             except _Mismatch as e:
                 return f"op {i} compute: {e} (impl {y}, model {z})"
             cz = _norm_model(kind, spec, z)
             if isinstance(cz, dict):
-                cz = {kk: vv for kk, vv in cz.items() if kk != "__n"}
+                cz = {kk: vv for kk, vv in cz.items() if kk not in ("__n", "__ns", "__idx")}
             if cy != cz:
                 return f"op {i} compute: impl {cy} vs model {cz}"
     if kind == "dsum" and res.get("prec") != m.get("prec"):
@@ -647,7 +952,7 @@ def _plain(e):
 
 
 def _expect_ctx(last_ctx):
-    return {k: _enc(v) for k, v in last_ctx.items()}
+    return {k: _enc(_dec_leaf(v)) for k, v in last_ctx.items()}
 
 
 def _close(got, exact, rel):
@@ -695,6 +1000,30 @@ def _agg_fail(spec, e, fills, start, zero):
         if not ctx_ok(c):
             return f"{k} yields context {c}; the last filled context is {want_ctx}"
         return None
+    if k == "mean" and spec["seq"] in ("count", "store"):
+        # "If the sum_seq yields several values, they are all yielded, but only the first is divided by number of
+        # events"; the context of each is the last filled context updated with its own
+        n = len(fills)
+        if n == 0:
+            return "skip"
+        if spec["seq"] == "count":
+            sums = [(Fraction(n), {"count": n})]
+        else:
+            sums = [(_frac(v["d"]), {}) for v in fills]
+        if len(e) != len(sums):
+            return f"Mean.compute yielded {len(e)} values, its sum sequence yields {len(sums)}"
+        for j, (y, (sv, sc)) in enumerate(zip(e, sums)):
+            d, c = _split_pair(y)
+            try:
+                got = _unnum(d)
+            except _Mismatch as ex:
+                return str(ex)
+            exact = sv / n if j == 0 else sv
+            if not _close(got, exact, 4 * _ULP * abs(exact) if j == 0 else 0):
+                return f"Mean yields {float(got)!r} as value {j}; {exact} expected (sum sequence value {sv}, count {n})"
+            if not ctx_ok(c, sc):
+                return f"Mean yields context {c} with value {j}; last filled context {want_ctx} + {sc} expected"
+        return None
     if k == "mean":
         n = len(fills)
         if n == 0:
@@ -702,7 +1031,7 @@ def _agg_fail(spec, e, fills, start, zero):
         if len(e) != 1:
             return f"Mean.compute yielded {len(e)} values"
         d, c = _split_pair(e[0])
-        exact = sum((_frac(v["d"]) for v in fills), Fraction(0)) / n
+        exact = ((start or Fraction(0)) + sum((_frac(v["d"]) for v in fills), Fraction(0))) / n
         try:
             got = _unnum(d)
         except _Mismatch as ex:
@@ -799,13 +1128,22 @@ def _agg_fail(spec, e, fills, start, zero):
             comps.append([{"d": _mknum(_num(v["d"][i]) * mul), "c": None} for v in fills])
         # every component's own results, judged by the inner element's rule
         outs = []
+        con = spec.get("construct")
+        want_made = con == "variadic" or (con is not None and con == dim)
         for y in e:
             d, c = _split_pair(y)
-            if not (isinstance(d, dict) and "t" in d and len(d["t"]) == dim):
-                return f"Vectorize yields {d}, not a tuple of {dim} components"
+            try:
+                row, made = _vec_row(d)
+            except _Mismatch as ex:
+                return str(ex)
+            if len(row) != dim:
+                return f"Vectorize yields {d}, not {dim} components"
+            if made != want_made:
+                return (f"Vectorize(construct={con}) yields {d}: "
+                        f"{'the constructed object' if want_made else 'a plain tuple'} expected for {dim} components")
             if not ctx_ok(c):
                 return f"Vectorize yields context {c}; the last filled context is {want_ctx}"
-            outs.append(d["t"])
+            outs.append(row)
         for i in range(dim):
             col = [row[i] for row in outs]
             while col and col[-1] is None:
@@ -832,18 +1170,19 @@ def _ref_hist(spec, fills):
         edges = [[_frac(x) for x in ax] for ax in spec["edges"]]
         shape = [len(ax) - 1 for ax in edges]
         init = spec.get("make_bins") if spec.get("make_bins") is not None else spec.get("bins")
-        if init is None:
+
+        def full(dims):
             iv = 0 if spec.get("iv") is None else spec["iv"]
-            bins = [[iv] * shape[1] for _ in range(shape[0])]
-        else:
-            bins = copy.deepcopy(init)
+            return [full(dims[1:]) for _ in range(dims[0])] if len(dims) > 1 else [iv] * dims[0]
+        bins = full(shape) if init is None else copy.deepcopy(init)
         n_out = 0
         for v in fills:
-            idx = []
-            for x, ax in zip(v["d"], edges):
-                idx.append(bisect.bisect_right(ax, _frac(x)) - 1)
+            idx = [bisect.bisect_right(ax, _frac(x)) - 1 for x, ax in zip(v["d"], edges)]
             if all(0 <= i < n for i, n in zip(idx, shape)):
-                bins[idx[0]][idx[1]] += 1
+                cell = bins
+                for i in idx[:-1]:
+                    cell = cell[i]
+                cell[idx[-1]] += 1
             else:
                 n_out += 1
         return bins, n_out
@@ -869,6 +1208,8 @@ def _start_of(spec, zero):
         return 0 if zero else spec["count0"]
     if k in ("sum", "dsum"):
         return Fraction(0) if zero else _frac(spec["total0"])
+    if k == "mean" and spec["seq"] == "sumt":
+        return Fraction(0) if zero else _frac(spec["t0"])
     return None
 
 
@@ -883,6 +1224,14 @@ def oracle(case, res):
     if bad or "init_err" in res:
         return bad
     obs = res["obs"]
+    if spec["k"] == "countrun":
+        bad = _oracle_countrun(spec, ops, obs)
+        if bad:
+            return bad
+    for si, ok in res.get("eq", {}).items():
+        if ok is not True:
+            return (f"after reset() (op {si}) `element == newly constructed element` is {ok} "
+                    f"(history {_show(ops[:int(si) + 1])})")
     # 1. the documented aggregate, for every compute whose preceding fills (since construction / the last reset) all succeeded
     fills, zero, clean = [], False, True
     gscale = spec.get("scale0")            # Graph: the scale a newly constructed graph has
@@ -892,23 +1241,38 @@ def oracle(case, res):
                 if spec["k"] == "vec" and o["f"] == "Other:IndexError" and len(op[1]["d"]) < _vec_dim(spec):
                     clean = False          # a data vector that is too short: no claim until the next reset
                     continue
+                if spec["k"] == "groupby" and o["f"] == "LenaValueError" and _ref_key(spec, _ctx_of(op[1])) is None:
+                    continue               # documented: the key could not be formatted; the value is not stored
+                if spec["k"] == "hist" and spec.get("md") and o["f"] == "LenaValueError" and (
+                        not isinstance(op[1]["d"], list) or len(op[1]["d"]) != len(spec["edges"])):
+                    clean = False          # get_bin_on_value: "arg and edges must have the same length"
+                    continue
                 return f"op {i}: fill({op[1]}) raised {o['f']} (history {_show(ops[:i + 1])})"
             fills.append(op[1])
+        elif op[0] == "run":
+            continue
         elif op[0] == "r":
+            if spec["k"] == "mean" and spec["seq"] == "fcsum":
+                if o != {"re": "LenaAttributeError"}:      # "the sum element has no reset method"
+                    return f"op {i}: reset() of Mean around a sum element without reset gives {o}, LenaAttributeError is documented"
+                continue                                    # nothing was reset
             if o != "r":
                 return f"op {i}: reset() raised {o} (history {_show(ops[:i + 1])})"
             fills, zero, clean = [], True, True
             gscale = spec.get("scale0")
         else:
-            if not clean:
+            if not clean or spec["k"] == "countrun":
                 continue
             exp_err = _expected_compute_error(spec, fills)
             if spec["k"] == "graph":
                 cs = (_ctx_of(fills[-1]) if fills else {}).get("scale")
                 if cs is not None and gscale is not None and gscale != cs:
                     exp_err = ["LenaRuntimeError"]     # documented: initialisation and context scale differ
-                elif cs is not None:
-                    gscale = cs
+                else:
+                    if cs is not None:
+                        gscale = cs
+                    if len({len(f["d"][0]) if isinstance(f["d"][0], list) else 1 for f in fills}) > 1:
+                        exp_err = ["LenaValueError"]   # "coordinates tuples must have same dimension"
             if "ce" in o:
                 if exp_err is None or o["ce"] not in exp_err:
                     return (f"op {i}: compute() raised {o['ce']} after fills {[f['d'] for f in fills]} "
@@ -922,9 +1286,10 @@ def oracle(case, res):
             msg = _agg_fail(spec, o["c"], fills, _start_of(spec, zero), zero)
             if not msg and spec["k"] == "graph":
                 c = _split_pair(o["c"][0])[1]
-                if c.get("scale") != gscale or c.get("dim") != (1 if fills else None):
+                gdim = None if not fills else (len(fills[0]["d"][0]) if isinstance(fills[0]["d"][0], list) else 1)
+                if c.get("scale") != gscale or c.get("dim") != gdim:
                     msg = (f"Graph yields context {c}; scale {gscale} (initial or from the last filled context) and "
-                           f"dim {1 if fills else None} expected")
+                           f"dim {gdim} expected")
             if msg and msg != "skip":
                 return f"op {i}: {msg} (history {_show(ops[:i + 1])})"
     # 2. reset() equals a fresh element: the observations after each reset equal those of a new element
@@ -939,10 +1304,50 @@ def oracle(case, res):
     return None
 
 
+def _oracle_countrun(spec, ops, obs):
+    """Count driven by run(flow), fill, compute, reset: the counter counts every value that ran or was filled;
+    run passes the values on unchanged, the last one with its context + {name: counter}"""
+    count, last = spec["count0"], {}
+    name = spec["name"]
+    for i, (op, o) in enumerate(zip(ops, obs)):
+        if op[0] == "run":
+            vals = [_enc(_value(spec, v)) for v in op[1]]
+            if "run" not in o or len(o["run"]) != len(vals):
+                return f"op {i}: Count.run({[v['d'] for v in op[1]]}) gives {o}"
+            if not vals:
+                continue
+            count += len(vals)
+            if o["run"][:-1] != vals[:-1]:
+                return f"op {i}: Count.run changed a value before the last one: {o['run']} for {vals}"
+            d, c = _split_pair(o["run"][-1])
+            want = dict(_expect_ctx(_ctx_of(op[1][-1])), **{name: count})
+            if d != _enc(_data(spec, op[1][-1]["d"])) or c != want:
+                return (f"op {i}: Count.run yields {o['run'][-1]} last; the last value with context {want} expected "
+                        f"(history {_show(ops[:i + 1])})")
+        elif op[0] == "f":
+            if o.get("f") is not None:
+                return f"op {i}: fill raised {o}"
+            count += 1
+            last = _ctx_of(op[1])
+        elif op[0] == "r":
+            count, last = 0, {}
+        else:
+            if "c" not in o or len(o["c"]) != 1:
+                return f"op {i}: compute() gives {o}"
+            d, c = _split_pair(o["c"][0])
+            want = dict(_expect_ctx(last), **{name: count})
+            if d != count or c != want:
+                return (f"op {i}: Count yields {o['c'][0]}; {count} values ran through or were filled, context {want} "
+                        f"expected (history {_show(ops[:i + 1])})")
+    return None
+
+
 def _show(ops):
     out = []
     for op in ops:
-        if op[0] == "f":
+        if op[0] == "run":
+            out.append(f"run({[v['d'] for v in op[1]]})")
+        elif op[0] == "f":
             v = op[1]
             out.append(f"fill({v['d']!r}{'' if v.get('c') is None else ', ' + repr(v['c'])})")
         else:
@@ -984,6 +1389,9 @@ def _init_oracle(spec, res):
                 want = "LenaValueError"
             elif init is not None and len(init) != len(axes[0]) - 1:
                 want = "LenaValueError"
+    elif k == "groupby":
+        if any(not isinstance(a, (str, list)) for a in spec["args"]):
+            want = "LenaTypeError"      # "group_by and merge should be strings or containers of strings"
     elif k == "vec":
         if spec["list"] and spec["dim"] is not None:
             want = "LenaTypeError"
@@ -1009,7 +1417,13 @@ def classify(case, res):
         k = "vec:" + spec["inner"]["k"] + (":FillComputeSeq" if spec.get("wrap") else "")
     if k == "mean":
         k = f"mean:{spec['seq']}"
+    if k == "hist" and spec.get("md"):
+        k = "hist:%dd" % len(spec["edges"])
     labels = [k]
+    if spec.get("via"):
+        labels.append("via:" + spec["via"])
+    if spec.get("construct") is not None:
+        labels.append("vec:construct")
     if "init_err" in res:
         labels.append("init:" + res["init_err"])
         return labels
@@ -1037,6 +1451,9 @@ def shrink(case):
     for i in range(len(ops)):
         yield dict(case, ops=ops[:i] + ops[i + 1:])
     for i, op in enumerate(ops):
+        if op[0] == "run" and op[1]:
+            for j in range(len(op[1])):
+                yield dict(case, ops=ops[:i] + [["run", op[1][:j] + op[1][j + 1:]]] + ops[i + 1:])
         if op[0] == "f":
             v = op[1]
             if v.get("c"):
@@ -1133,9 +1550,23 @@ def _specs_small():
     for seq in (None, "sum", "dsum"):
         for poe in (False, True):
             out.append(({"k": "mean", "seq": seq, "poe": poe}, 0, [v(3, {"a": 1}), v(4)]))
+    # Mean around other sum sequences: non-zero start, a first value with context, several values, no reset
+    out.append(({"k": "mean", "seq": "sumt", "t0": 5, "poe": False}, 0, [v(3, {"a": 1}), v(4)]))
+    out.append(({"k": "mean", "seq": "count", "poe": False}, 0, [v(3, {"a": 1}), v(4, {"count": 9})]))
+    out.append(({"k": "mean", "seq": "store", "poe": True}, 0, [v(3, {"a": 1}), v(4)]))
+    out.append(({"k": "mean", "seq": "fcsum", "poe": False}, 0, [v(3, {"a": 1}), v(4)]))
     for corr in (True, False):
         for poe in (False, True):
             out.append(({"k": "vmc", "corrected": corr, "poe": poe}, 0, [v(3, {"a": 1}), v(7)]))
+    out.append(({"k": "vmc", "corrected": True, "poe": False, "explicit": True}, 0, [v(3, {"a": 1}), v(7)]))
+    # elements filled and reset through adapters
+    out.append(({"k": "sum", "total0": 2, "via": "fr"}, 0, [v(5, {"a": 1}), v(-7)]))
+    out.append(({"k": "count", "name": "count", "count0": 0, "via": "frseq"}, 0, [v(5, {"a": 1}), v(7)]))
+    out.append(({"k": "mean", "seq": "sum", "poe": True, "via": "fc"}, 0, [v(3, {"a": 1}), v(4)]))
+    out.append(({"k": "hist", "edges": [0, 1, 2], "bins": [3, 4], "via": "fr"}, 0, [v(0), v(-1, {"a": 1})]))
+    out.append(({"k": "groupby", "args": ["g"]}, 0, [v(3, {"g": {"__set__": [1, 2]}}), v(4, {"g": 2, "m": 1})]))
+    out.append(({"k": "graph", "scale0": None, "sort": True}, 0, [v([[3, 1], 1], {"a": 1}), v([[1], 2])]))
+    out.append(({"k": "graph", "scale0": None, "sort": False}, 0, [v([[3, 1], 1], {"a": 1}), v([[1, 0], 2])]))
     for grp in (True, False):
         out.append(({"k": "store", "group": grp}, 0, [v(3, {"a": 1}), v(4)]))
     out.append(({"k": "groupby", "args": []}, 0, [v(3, {"g": 1}), v(4)]))
@@ -1166,6 +1597,14 @@ def _specs_small():
     out.append(({"k": "vec", "inner": inners[1], "list": False, "dim": 2, "wrap": 1}, 0, [v([1, 2], {"a": 1}), v([3, 5])]))
     out.append(({"k": "vec", "inner": inners[0], "list": True, "nseq": 2, "dim": None, "wrap": 2}, 0, [v([1, 2], {"a": 1}), v([3, 5])]))
     out.append(({"k": "vec", "inner": inners[5], "list": True, "nseq": 2, "dim": None, "wrap": 1}, 0, [v([1, 2], {"a": 1}), v([3])]))
+    # construct: a callable for any number of components, a namedtuple of the right and of the wrong size
+    for con in ("variadic", 2, 3):
+        out.append(({"k": "vec", "inner": inners[0], "list": False, "dim": 2, "construct": con}, 0,
+                    [v([1, 2], {"a": 1}), v([3, 5])]))
+    out.append(({"k": "vec", "inner": {"k": "mean", "seq": "dsum", "poe": True}, "list": False, "dim": 2}, 0,
+                [v([_mknum(0.1), _mknum(1e100)], {"a": 1}), v([_mknum(0.2), _mknum(-1e100)])]))
+    out.append(({"k": "vec", "inner": {"k": "dsum", "total0": 0}, "list": False, "dim": 2, "construct": 2}, 0,
+                [v([_mknum(0.1), _mknum(1e100)], {"a": 1}), v([_mknum(5e-324), 7])]))
     out.append(({"k": "vec", "inner": inners[2], "list": True, "nseq": 2, "dim": None}, 0, [v([1, 2], {"a": 1}), v([3])]))
     return out
 
@@ -1180,6 +1619,20 @@ def _init_cases():
         cs.append({"el": {"k": "hist", "edges": [0, 1, 2], "bins": bins}, "ops": ops, "sh": 0})
         cs.append({"el": {"k": "hist", "edges": [0, 1, 2], "make_bins": bins}, "ops": ops, "sh": 0})
     cs.append({"el": {"k": "hist", "edges": [0, 1, 2], "bins": [1, 2], "make_bins": [1, 2]}, "ops": ops, "sh": 0})
+    v2 = {"d": [1, 0], "c": None}
+    for bins in ([[1, 2]], [[1, 2], [3, 4]], [[1, 2], [3, 4], [5, 6]], []):
+        cs.append({"el": {"k": "hist", "md": True, "edges": [[0, 1, 2], [0, 1, 3]], "bins": bins},
+                   "ops": [["f", v2], ["c"], ["r"], ["c"]], "sh": 0})
+    for edges in ([[0, 1, 2], [1]], [[0, 1, 2], [2, 1]], [[0, 1]], [[0, 1, 2], [0, 1], [0, 5]]):
+        cs.append({"el": {"k": "hist", "md": True, "edges": edges}, "ops": [["f", v2], ["c"]], "sh": 0})
+    for args in ([5], ["g", 7], [None]):
+        cs.append({"el": {"k": "groupby", "args": args}, "ops": ops, "sh": 0})
+    # one-dimensional edges given as a list of one axis, with initial bins (8d715e5), reset re-creating them
+    v1 = {"d": [1], "c": {"a": 1}}
+    for bins in ([3, 4], [3], []):
+        for key in ("bins", "make_bins"):
+            cs.append({"el": {"k": "hist", "md": True, "edges": [[0, 1, 2]], key: bins},
+                       "ops": [["f", v1], ["c"], ["r"], ["c"], ["f", v1], ["c"]], "sh": 0})
     sm = {"k": "sum", "total0": 0}
     vv = {"d": [1, 2, 3], "c": None}
     for dim in (None, 0, 1, 2, 3):
@@ -1223,6 +1676,14 @@ def _rand_case(rng, maxlen):
                 x = _rand_float_any(rng)
             pool.append(_mknum(x))
             return {"d": _mknum(x), "c": ctx()}
+    elif kind == "mean" and rng.random() < 0.3:
+        sq = rng.choice(["sumt", "count", "store", "fcsum"])
+        if sq == "count":
+            sh = 0
+        spec = {"k": "mean", "seq": sq, "poe": rng.random() < 0.4}
+        if sq == "sumt":
+            spec["t0"] = _rand_num(rng, sh, 20)
+        mk = lambda: {"d": _rand_num(rng, sh, rng.choice([4, 20])), "c": ctx()}
     elif kind == "mean":
         spec = {"k": "mean", "seq": rng.choice([None, "sum", "dsum"]), "poe": rng.random() < 0.4}
         if spec["seq"] == "dsum" and rng.random() < 0.6:
@@ -1237,13 +1698,19 @@ def _rand_case(rng, maxlen):
     elif kind == "vmc":
         sh = min(sh, 10)
         spec = {"k": "vmc", "corrected": rng.random() < 0.6, "poe": rng.random() < 0.4}
+        if rng.random() < 0.3:
+            spec["explicit"] = True
         mk = lambda: {"d": _rand_num(rng, sh, rng.choice([3, 10, 22])), "c": ctx()}
     elif kind == "store":
         spec = {"k": "store", "group": rng.random() < 0.5}
         mk = lambda: {"d": _rand_num(rng, sh, 10), "c": ctx()}
     elif kind == "groupby":
         spec = {"k": "groupby", "args": rng.choice([[], ["g"], ["", "m"], [["g", "m"]], ["", ["m", "a"]]])}
-        mk = lambda: {"d": _rand_num(rng, sh, 10), "c": ctx()}
+        def mk():
+            c = ctx()
+            if rng.random() < 0.08:         # a context that cannot be rendered as a key
+                c = {"g": {"__set__": [1, 2]}, "m": rng.randint(1, 2), "a": 1}
+            return {"d": _rand_num(rng, sh, 10), "c": c}
     elif kind == "hist":
         if rng.random() < 0.2:
             sh = 0
@@ -1255,7 +1722,20 @@ def _rand_case(rng, maxlen):
                 spec["make_bins"] = [[rng.randint(0, 3) for _ in range(2)] for _ in range(3)]
             elif r < 0.7:
                 spec["iv"] = rng.randint(1, 3)
-            mk = lambda: {"d": [rng.randint(-1, 5), rng.randint(-2, 3)], "c": ctx()}
+            if rng.random() < 0.3:       # three dimensions
+                spec = {"k": "hist", "md": True, "edges": [[0, 1, 3], [-1, 0, 2], [0, 2]]}
+                if rng.random() < 0.4:
+                    spec[rng.choice(["bins", "make_bins"])] = [[[rng.randint(0, 2)] for _ in range(2)] for _ in range(2)]
+            nd = len(spec["edges"])
+
+            def mk():
+                d = [rng.randint(-2, 5) for _ in range(nd)]
+                r = rng.random()
+                if r < 0.04:
+                    d = d[:-1]              # a coordinate of the wrong dimension: LenaValueError
+                elif r < 0.06:
+                    d = d + [0]
+                return {"d": d, "c": ctx()}
         else:
             n = rng.randint(1, 5)
             es = sorted(rng.sample(range(-8, 9), n + 1))        # the edges are es[i] / 2**sh
@@ -1285,7 +1765,14 @@ def _rand_case(rng, maxlen):
                 return {"d": num_of(m), "c": ctx()}
     elif kind == "graph":
         spec = {"k": "graph", "scale0": rng.choice([None, None, 5, 6]), "sort": rng.random() < 0.6}
-        mk = lambda: {"d": [_rand_num(rng, sh, 4), _rand_num(rng, sh, 4)], "c": ctx()}
+        gd = rng.choice([0, 0, 0, 1, 2])     # coordinates: numbers, or tuples of that length
+
+        def mk():
+            x = _rand_num(rng, sh, 4)
+            if gd:
+                n = gd if rng.random() < 0.9 else 3 - gd
+                x = [_rand_num(rng, sh, 3) for _ in range(n)]
+            return {"d": [x, _rand_num(rng, sh, 4)], "c": ctx()}
     else:
         inner = rng.choice([{"k": "sum", "total0": 0}, {"k": "sum", "total0": 0}, {"k": "count", "name": "count", "count0": 0},
                             {"k": "mean", "seq": rng.choice([None, "sum", "dsum"]), "poe": rng.random() < 0.5},
@@ -1299,29 +1786,55 @@ def _rand_case(rng, maxlen):
             spec = {"k": "vec", "inner": inner, "list": False, "dim": rng.randint(1, 3)}
         if rng.random() < 0.4:
             spec["wrap"] = rng.choice([1, 2, 2, 4])
+        if rng.random() < 0.3:
+            spec["construct"] = rng.choice(["variadic", 1, 2, 3])
         dim = _vec_dim(spec)
+        if rng.random() < 0.12 and not spec.get("wrap"):        # Decimal sums component-wise, floats of mixed magnitude
+            sh = 0
+            spec["inner"] = rng.choice([{"k": "dsum", "total0": 0}, {"k": "mean", "seq": "dsum", "poe": rng.random() < 0.5}])
+
+            def mk():
+                n = dim if rng.random() < 0.9 else rng.randint(0, dim + 1)
+                xs = []
+                for _ in range(n):
+                    x = (rng.random() + 1.0) * 2.0 ** rng.choice([rng.randint(-200, 200), rng.randint(-8, 8)])
+                    xs.append(_mknum(-x if rng.random() < 0.5 else x) if rng.random() < 0.8 else rng.randint(-10 ** 20, 10 ** 20))
+                return {"d": xs, "c": ctx()}
+            return {"el": spec, "ops": _rand_history(rng, mk, maxlen), "sh": sh}
 
         def mk():
             n = dim if rng.random() < 0.9 else rng.randint(0, dim + 1)
             return {"d": [_rand_num(rng, sh, rng.choice([3, 20])) for _ in range(n)], "c": ctx()}
+    if spec["k"] in ("count", "sum", "dsum", "mean", "vmc", "store", "hist") and rng.random() < 0.15:
+        spec["via"] = rng.choice(["fr", "frseq", "fc"])
     return {"el": spec, "ops": _rand_history(rng, mk, maxlen), "sh": sh}
 
 
+def _countrun_cases(quick):
+    v = lambda d, c=None: {"d": d, "c": c}
+    for spec in ({"k": "countrun", "name": "count", "count0": 0}, {"k": "countrun", "name": "n", "count0": 2}):
+        alphabet = [["run", [v(1), v(2, {"a": 1})]], ["run", []], ["run", [v(3, {"n": 5})]], ["f", v(4, {"b": 1})], ["c"], ["r"]]
+        for h in _all_histories(alphabet, 3 if quick else 4):
+            yield {"el": spec, "ops": h, "sh": 0}
+
+
 def gen_cases(ctx):
+    """a generator (cheap to enumerate lazily): construction cases, Count.run histories, every short history of every
+    small configuration, then the seeded random histories"""
     rng = ctx.rng
     quick = ctx.tier == "quick"
-    cases = list(_init_cases())
+    ctx.exhaustive = False
+    yield from _init_cases()
+    yield from _countrun_cases(quick)
     for spec, sh, (v1, v2) in _specs_small():
         alphabet = [["f", v1], ["f", v2], ["c"], ["r"]]
         big = spec["k"] in ("vec", "mean", "vmc")
         depth = 4 if quick else (4 if big else 5)
         for h in _all_histories(alphabet, depth):
-            cases.append({"el": spec, "ops": h, "sh": sh})
-    n = 8000 if quick else 300000
+            yield {"el": spec, "ops": h, "sh": sh}
+    n = 6000 if quick else 250000
     for _ in range(n):
-        cases.append(_rand_case(rng, 12))
-    ctx.exhaustive = False
-    return cases
+        yield _rand_case(rng, 12)
 
 
 # ---- MANIFEST texts ------------------------------------------------------------------------
